@@ -98,11 +98,24 @@ pub fn build_response(
     payload: &[u8],
 ) -> Built {
     let mut headers: Vec<(String, Vec<u8>)> = extra_headers.to_vec();
+    // styles 4.. add optional white space (spaces) around the framing field's value: 4..=7 behind it, 8..=11 on both sides
+    let pad = |v: Vec<u8>| -> Vec<u8> {
+        match hdr_style / 4 {
+            1 => [&v[..], b" "].concat(),
+            2 => [b"  ", &v[..], b"   "].concat(),
+            _ => v,
+        }
+    };
     match framing {
-        Framing::Length => headers.push((style_name("Content-Length", hdr_style), payload.len().to_string().into_bytes())),
+        Framing::Length => headers.push((style_name("Content-Length", hdr_style), pad(payload.len().to_string().into_bytes()))),
+        // (for the coding list: an empty last member, resp. a list without a blank after the comma, with blanks around it)
         Framing::Chunked(_) => headers.push((
             style_name("Transfer-Encoding", hdr_style),
-            style_name("chunked", hdr_style).into_bytes(),
+            match hdr_style / 4 {
+                1 => [style_name("chunked", hdr_style).as_bytes(), b","].concat(),
+                2 => [b"  identity,", style_name("chunked", hdr_style).as_bytes(), b"   "].concat(),
+                _ => style_name("chunked", hdr_style).into_bytes(),
+            },
         )),
         Framing::Close => {}
     }
